@@ -71,6 +71,14 @@ Proof. exact arun_src_eq. Qed.
 Theorem C11_src_asyncio : forall ident secret, (zlen ident <= 255)%Z -> forall es, A (arun_src ident secret es).
 Proof. exact src_run_A. Qed.
 
+Theorem C11_src_asyncio_connection_ready_is_model : forall ident secret k body name rand a s,
+  readinfo body = Some (name, rand) -> msgauth rand ident secret = Some a ->
+  on_frame ident secret k 1 body s =
+  Protocol_connection_ready ident secret k
+    (modk k (fun c => mkac (cbuf c) (FAuth rand :: cout c) (cclosing c) (clost c) (caborted c)
+                           (match cnonce c with None => Some rand | n => n end)) s).
+Proof. exact connection_ready_src_eq. Qed.
+
 Print Assumptions C11_asyncio.
 Print Assumptions C11_blocking_session_refuted.
 Print Assumptions C11_blocking_session_partial.
@@ -83,3 +91,4 @@ Print Assumptions C11_src_asyncio_subscribe_is_model.
 Print Assumptions C11_src_asyncio_unsubscribe_is_model.
 Print Assumptions C11_src_asyncio_run_is_model.
 Print Assumptions C11_src_asyncio.
+Print Assumptions C11_src_asyncio_connection_ready_is_model.
